@@ -110,6 +110,8 @@ pub struct WorldCfg {
     pub order: u8,
     pub h3: bool,
     pub seed_ids: Option<(u16, u32)>,
+    /// Maximum Packet Size the client announces in its CONNECT (binds the broker, never the client)
+    pub own_max_packet: Option<u32>,
     pub session_present: bool,
     /// reach the CONNACK through an extended authentication exchange (authorize()); None = decided by the seed (one in four)
     pub via_auth: Option<bool>,
@@ -143,6 +145,7 @@ impl Default for WorldCfg {
             order: 0,
             h3: false,
             seed_ids: None,
+            own_max_packet: None,
             session_present: false,
             via_auth: None,
         }
@@ -317,7 +320,7 @@ impl World {
         // authorize() instead of connect(): whatever the CONNACK announces must be in force all the same
         let via_auth = cfg.via_auth.unwrap_or(cfg.seed % 4 == 3);
         if via_auth {
-            let conn = ConnSpec { sei: cfg.sei, client_id: Some("c".into()), topic_alias_maximum: Some(8), auth_method: Some("m".into()), auth_data: Some(vec![1]), ..Default::default() };
+            let conn = ConnSpec { sei: cfg.sei, client_id: Some("c".into()), topic_alias_maximum: Some(8), max_packet_size: cfg.own_max_packet, auth_method: Some("m".into()), auth_data: Some(vec![1]), ..Default::default() };
             sim.cmd(Cmd::Connect(conn));
             sim.settle();
             sim.feed_packet(&SPacket::Auth { reason: Some(0x18), props: vec![Prop::str(21, "m"), Prop::bin(22, b"c")] });
@@ -325,7 +328,7 @@ impl World {
             sim.cmd(Cmd::Authorize(AuthSpec { reason: Some(0x18), method: Some("m".into()), data: Some(vec![2]), user_props: vec![] }));
             sim.settle();
         } else {
-            let conn = ConnSpec { sei: cfg.sei, client_id: Some("c".into()), topic_alias_maximum: Some(8), ..Default::default() };
+            let conn = ConnSpec { sei: cfg.sei, client_id: Some("c".into()), topic_alias_maximum: Some(8), max_packet_size: cfg.own_max_packet, ..Default::default() };
             sim.cmd(Cmd::Connect(conn));
             sim.settle();
         }
@@ -468,7 +471,8 @@ impl World {
                     let opt = sp.filters[0].1.clone();
                     sp.filters.push((format!("g/{idx}"), opt.clone()));
                     sp.filters.push((format!("h/{idx}/#"), opt));
-                    sp.user_props = vec![("sk".to_string(), format!("sv{idx}"))];
+                    // (125 bytes: with the subscription identifier's 2 to 5 bytes the property section crosses 127 / 128)
+                    sp.user_props = vec![("k".to_string(), format!("{:0>119}", idx))];
                 }
                 OpSpec::Subscribe(sp)
             }
@@ -500,6 +504,10 @@ impl World {
                             d.reason = Some(0x80);
                             d.reason_string = Some(format!("{idx} {}", "\u{e9}".repeat(70)));
                             d.user_props = vec![("dk".to_string(), String::new()), (String::new(), "x".to_string())];
+                        }
+                        _ if idx % 8 == 0 => {
+                            // an explicit Session Expiry Interval of 0 is not the same as none
+                            d.sei = Some(0);
                         }
                         _ => {}
                     }
@@ -1400,7 +1408,10 @@ impl World {
                     }
                 },
                 Ok(other) => {
-                    self.viol(&["C17"], format!("C17/unexpected-resend/{}", other.type_name()), format!("{} written on the resumed connection before any new request", other.brief()));
+                    // an acknowledgement written before anything has arrived on this connection acknowledges nothing: more than
+                    // "exactly one per inbound packet" (C08) as well
+                    let unsolicited_ack = matches!(other, CPacket::Ack(a) if a.kind != AckKind::Pubrel);
+                    self.viol(if unsolicited_ack { &["C17", "C08"] } else { &["C17"] }, format!("C17/unexpected-resend/{}", other.type_name()), format!("{} written on the resumed connection before any new request", other.brief()));
                 }
             }
         }
@@ -1671,7 +1682,7 @@ impl World {
                                     if let Some((field, why)) = crate::checks::c01::diff(&want, &CPacket::Disconnect(d.clone())) {
                                         self.viol(&["C01", "C13"], format!("C01/value-mismatch/pkt=DISCONNECT/field={field}"), format!("op{i}: the DISCONNECT written differs from the caller's options: {why}"));
                                     }
-                                    if spec.reason.is_some() {
+                                    if spec.reason.is_some() || spec.sei.is_some() {
                                         self.counters.disconnects_with_options += 1;
                                     }
                                 }
@@ -1963,6 +1974,14 @@ impl World {
         for i in 0..nops {
             if self.m[i].dropped || self.sim.ops[i].held {
                 continue;
+            }
+            // whatever ends the connection, operations learn of it as ContextExited (the transport's error is run()'s to report)
+            if let Some(o) = &self.sim.ops[i].out {
+                if matches!(o.err(), Some(ErrSum::SocketClosed)) && !self.m[i].checked_done {
+                    let k = self.m[i].kind.name();
+                    self.viol(P_C14, format!("C14/operation-reports-the-transports-error/{k}"), format!("op{i} ({k}) completed with SocketClosed; an operation cut short by the end of the connection reports ContextExited"));
+                    self.m[i].checked_done = true;
+                }
             }
             let out = self.sim.ops[i].out.clone();
             let kind = self.m[i].kind;
